@@ -164,6 +164,10 @@ func (s *AScenario) configYAML(variant string) string {
 		c := *s
 		c.Out2 = !s.Out2
 		return c.configYAML("")
+	case "badpattern":
+		// a pipeline transformation with an extraction pattern the extractor cannot run (a wildcard that nothing ends): must be
+		// rejected when the configuration is verified, not blow up when the next pipeline is created
+		return strings.Replace(s.configYAML(""), "transformations:\n", "transformations:\n  - type: extractTail\n    key: source\n    pattern: '*'\n    maxLen: 10\n    destKey: task\n", 1)
 	case "noorchestration":
 		// a whole mandatory section is missing: well-formed YAML that must fail verification, not crash the reloader
 		full := s.configYAML("")
@@ -823,7 +827,7 @@ func (w *worldA) tweak(r *simrt.Rand, s *AScenario, end int) {
 		s.Reloader = true
 		s.Events = nil
 		for i, n := 0, 1+r.Intn(3); i < n; i++ {
-			s.Events = append(s.Events, AEvent{AtMs: r.Intn(end + 3000), Kind: []string{"sighup_valid", "sighup_valid", "sighup_invalid", "sighup_incompatible", "sighup_valid", "sighup_addoutput", "sighup_badenvfield", "sighup_noorchestration"}[r.Intn(8)]})
+			s.Events = append(s.Events, AEvent{AtMs: r.Intn(end + 3000), Kind: []string{"sighup_valid", "sighup_valid", "sighup_invalid", "sighup_incompatible", "sighup_valid", "sighup_addoutput", "sighup_badenvfield", "sighup_noorchestration", "sighup_badpattern"}[r.Intn(9)]})
 		}
 		if r.Bool(25) {
 			restarts(1)
@@ -1322,9 +1326,9 @@ func (r *aRun) drive() {
 			if simsignal.Deliver(syscall.SIGUSR1) > 0 {
 				r.out.fault("sigusr1_delivered", 1)
 			}
-		case "sighup_valid", "sighup_invalid", "sighup_incompatible", "sighup_addoutput", "sighup_badenvfield", "sighup_noorchestration":
+		case "sighup_valid", "sighup_invalid", "sighup_incompatible", "sighup_addoutput", "sighup_badenvfield", "sighup_noorchestration", "sighup_badpattern":
 			variant := map[string]string{"sighup_valid": "valid2", "sighup_invalid": "invalid", "sighup_incompatible": "incompatible",
-				"sighup_addoutput": "addoutput", "sighup_badenvfield": "badenvfield", "sighup_noorchestration": "noorchestration"}[ev.Kind]
+				"sighup_addoutput": "addoutput", "sighup_badenvfield": "badenvfield", "sighup_noorchestration": "noorchestration", "sighup_badpattern": "badpattern"}[ev.Kind]
 			r.writeConfig(variant)
 			if simsignal.Deliver(syscall.SIGHUP) > 0 {
 				r.out.fault(ev.Kind, 1)
